@@ -174,8 +174,9 @@ impl<'a> Tr<'a> {
                         let k = ix.index as usize;
                         Ok(Out { pre: a.pre, term: format!("{}{}", a.term, Self::tuple_proj(ts.len(), k)), ty: ts[k].clone(), diverges: false })
                     }
-                    (m, Ty::Adt(n)) => {
+                    (m, Ty::Adt(n, targs)) => {
                         let (fname, fty) = self.field_of(n, m, e.span())?;
+                        let fty = subst_params(&fty, &self.adt_subst(n, targs));
                         Ok(Out { pre: a.pre, term: format!("{}.{}", a.term, fname), ty: fty, diverges: false })
                     }
                     _ => self.err(e.span(), &format!("field access on {}", bt)),
@@ -427,7 +428,7 @@ impl<'a> Tr<'a> {
             // enum unit variant
             let tyname_r = if tyname == "Self" { self.cur.self_ty.clone().unwrap_or_default() } else { tyname.clone() };
             if let Some(lean) = self.reg.enums.get(&tyname_r) {
-                return Ok(Out::pure(format!("{}.{}", lean, lean_ident(&last)), Ty::Adt(tyname_r)));
+                return Ok(Out::pure(format!("{}.{}", lean, lean_ident(&last)), Ty::Adt(tyname_r, vec![])));
             }
             // associated constant of a registered type
             if let Some(c) = self.idx.find_const(Some(&tyname_r), &last, &self.cur.module) {
@@ -605,7 +606,7 @@ impl<'a> Tr<'a> {
                         None => return self.err(s.span(), "missing field in enum struct-variant literal"),
                     }
                 }
-                return Ok(Out { pre, term: format!("({}.{} {})", lean_en, lean_ident(&variant), terms.join(" ")), ty: Ty::Adt(en), diverges: false });
+                return Ok(Out { pre, term: format!("({}.{} {})", lean_en, lean_ident(&variant), terms.join(" ")), ty: Ty::Adt(en, vec![]), diverges: false });
             }
         }
         let name = segs.last().cloned().unwrap_or_default();
@@ -624,14 +625,14 @@ impl<'a> Tr<'a> {
         }
         let term = match &s.rest {
             Some(r) => {
-                let b = self.expr(r, Some(&Ty::Adt(name.clone())))?;
+                let b = self.expr(r, Some(&Ty::Adt(name.clone(), vec![])))?;
                 pre.extend(b.pre);
-                format!("({{ {} with {} }} : {})", b.term, parts.join(", "), self.ph("lty", &[&Ty::Adt(name.clone())]))
+                format!("({{ {} with {} }} : {})", b.term, parts.join(", "), self.ph("lty", &[&Ty::Adt(name.clone(), vec![])]))
             }
-            None => format!("({{ {} }} : {})", parts.join(", "), self.ph("lty", &[&Ty::Adt(name.clone())])),
+            None => format!("({{ {} }} : {})", parts.join(", "), self.ph("lty", &[&Ty::Adt(name.clone(), vec![])])),
         };
         let _ = &lean;
-        Ok(Out { pre, term, ty: Ty::Adt(name), diverges: false })
+        Ok(Out { pre, term, ty: Ty::Adt(name, vec![]), diverges: false })
     }
 
     /// `s.as_ptr()`, `s.as_ptr().offset(k as _)`, `s.as_ptr().add(k)`  ->  (slice, offset)
@@ -879,7 +880,7 @@ impl<'a> Tr<'a> {
                 pre.extend(o.pre);
                 terms.push(o.term);
             }
-            return Ok(Out { pre, term: format!("({}.mk {})", lean, terms.join(" ")), ty: Ty::Adt(sname), diverges: false });
+            return Ok(Out { pre, term: format!("({}.mk {})", lean, terms.join(" ")), ty: Ty::Adt(sname, vec![]), diverges: false });
         }
         // enum tuple variant
         if let Some(en) = &prev {
@@ -893,7 +894,7 @@ impl<'a> Tr<'a> {
                     pre.extend(o.pre);
                     terms.push(o.term);
                 }
-                return Ok(Out { pre, term: format!("({}.{} {})", lean, lean_ident(&last), terms.join(" ")), ty: Ty::Adt(en), diverges: false });
+                return Ok(Out { pre, term: format!("({}.{} {})", lean, lean_ident(&last), terms.join(" ")), ty: Ty::Adt(en, vec![]), diverges: false });
             }
         }
         // a function of the crate that returns `!`
@@ -981,7 +982,7 @@ impl<'a> Tr<'a> {
         terms.extend(const_args);
         let mut arg_iter = args.into_iter();
         if has_self {
-            let st = Ty::Adt(self_ty.clone().unwrap_or_default());
+            let st = Ty::Adt(self_ty.clone().unwrap_or_default(), vec![]);
             match recv {
                 Some(r) => {
                     self.unify(&r.ty, &st, sp)?;
@@ -1064,9 +1065,9 @@ impl<'a> Tr<'a> {
                                         let t = self.fresh("t");
                                         let mut pre = x.pre;
                                         pre.push(format!("let {} ← Ctl.call ({} {})", t, lean, x.term));
-                                        return Ok(Out { pre, term: t, ty: Ty::Adt("Iter".into()), diverges: false });
+                                        return Ok(Out { pre, term: t, ty: Ty::Adt("Iter".into(), vec![match self.sub.shallow(&x.ty) { Ty::Slice(e) => *e, _ => Ty::Int(IntTy::U8) }]), diverges: false });
                                     }
-                                    Ty::Adt(_) => return Ok(x),
+                                    Ty::Adt(_, _) => return Ok(x),
                                     other => return self.err(m.span(), &format!("into_iter of {}", other)),
                                 }
                             }
@@ -1081,7 +1082,7 @@ impl<'a> Tr<'a> {
                 if castm.method == "cast" {
                     if let Expr::RawAddr(ra) = peel(&castm.receiver) {
                         let this = self.expr(&ra.expr, None)?;
-                        if let Ty::Adt(adt) = self.sub.shallow(&this.ty) {
+                        if let Ty::Adt(adt, _) = self.sub.shallow(&this.ty) {
                             let (fname, fty) = self.field_of(&adt, &syn::Member::Unnamed(syn::Index { index: 0, span: m.span() }), m.span()).or_else(|_| {
                                 // named first field
                                 let st = self.idx.find_struct(&adt, &self.cur.module).cloned();
@@ -1175,7 +1176,7 @@ impl<'a> Tr<'a> {
             }
         }
         // user-defined inherent method
-        if let Ty::Adt(adt) = &rt {
+        if let Ty::Adt(adt, _) = &rt {
             // inherent method of the receiver's type
             let cands: Vec<usize> = self
                 .idx
